@@ -50,6 +50,7 @@ Self-test mutations (each alone, scratch worktree, each gives a VIOLATION): see 
 """
 import datetime
 import json
+import os
 import random
 import types
 
@@ -78,7 +79,7 @@ MANIFEST = {
 }
 
 IMPORTS = ['Gen.States', 'Model.Beat']
-STRICT_WINDOW = False
+STRICT_WINDOW = bool(os.environ.get('C20_STRICT_WINDOW'))
 
 EPOCH = datetime.datetime(2030, 1, 1, 0, 0, 0)
 STATE_COQ = {'RUNNING': 'RUNNING', 'SUCCESS': 'SUCCESS', 'ERROR': 'ERROR', 'CANCELLED': 'CANCELLED', 'PAUSED': 'PAUSED',
@@ -397,11 +398,11 @@ def local_select(ctx, sets, oracle_only=False):
                 ctx.fail('pass:exception', 'handle_expired_actions raised %s on task-less rows' % errors[0], case)
             if len(selected) != 1 and not errors:
                 ctx.fail('select:not-queried', 'the pass did not query the expired actions exactly once', case)
-            for k in want:
-                if k not in got:
-                    ctx.fail('select:missed', 'row %d (RUNNING, sync, heartbeat %s < %s) is not selected for expiry' % (
-                        k, rows[k]['hb'], now - w), case)
-                    break
+            quota = len(want) if not c['batch'] else min(c['batch'], len(want))
+            if len([k for k in want if k in got]) < quota:
+                k = [k for k in want if k not in got][0]
+                ctx.fail('select:missed', 'row %d (RUNNING, sync, heartbeat %s < %s) is not selected for expiry (%d of %d due rows '
+                         'selected, batch_size %d)' % (k, rows[k]['hb'], now - w, len([k for k in want if k in got]), len(want), c['batch']), case)
             for k in got:
                 if k not in want:
                     why = ('finished' if rows[k]['state'] != 'RUNNING' else 'async' if rows[k]['sync'] is not True else 'fresh')
@@ -521,7 +522,9 @@ class OpsRun:
         self.trace = []          # human-readable real ops (for replay files)
         self.snaps = []          # (len(ops), rows_flat, log_flat)
         self.real_log = []       # (idx, state_code, at)
-        self.notified = {}       # action id -> number of schedule_on_action_complete calls
+        self.notified = {}       # action id -> epochs of schedule_on_action_complete calls
+        self.done_epoch = {}     # action id -> epoch in which its completion was observed
+        self.epoch = 0
         self.orphaned = False
         self.failed = False
         self.kinds = {}
@@ -553,8 +556,10 @@ class OpsRun:
             old = self.info[i]['state']
             if old not in COMPLETED and state in COMPLETED:
                 self.real_log.append((i, STATE_CODE[state], self.d.clock))
+                self.done_epoch[aid] = self.epoch
             self.info[i]['state'] = state
             cur[i] = r
+        self.epoch += 1
         return cur
 
     def snapshot(self, cur):
@@ -648,21 +653,29 @@ class OpsRun:
             self.fail('pass:exception', 'checker pass at %d let an exception escape: %s' % (d.clock, res['errors'][0]))
         if res['started'] != enabled or res['passes'] != (1 if enabled else 0):
             self.fail('service:enabled', 'settings %r: checker started=%s passes=%d' % (c, res['started'], res['passes']))
+        must_rows, missed = [], []
         for i, r in pre.items():
             aid, state, sync, hb, acc, tid, _w = r
             inf = self.info[i]
             must = (enabled and state == 'RUNNING' and sync is True and tid is not None and inf['hb'] < d.clock - w)
             nstate, nacc = post[i][1], post[i][4]
             if must:
+                must_rows.append(i)
                 self.kinds['x_expired'] = self.kinds.get('x_expired', 0) + 1
                 if nstate != 'ERROR' or not nacc:
-                    self.fail('expiry:missed', 'action %d (sync, RUNNING, last heartbeat/deadline %d) not failed by the pass at '
-                              '%d (threshold %d): state %s accepted %s' % (i, inf['hb'], d.clock, d.clock - w, nstate, nacc))
+                    missed.append((i, inf['hb'], nstate, nacc))
             elif (nstate, nacc) != (state, acc):
                 why = ('disabled' if not enabled else 'finished' if state != 'RUNNING' else 'async' if sync is not True
                        else 'no-parent' if tid is None else 'fresh')
                 self.fail('expiry:spurious:%s' % why, 'action %d (%s, sync=%s, heartbeat/deadline %d) changed to %s by the pass '
                           'at %d (threshold %d)' % (i, state, sync, inf['hb'], nstate, d.clock, d.clock - w))
+        # a pass may be limited to batch_size actions (the rest is due at the next pass); it must never do less
+        quota = len(must_rows) if not c['batch'] else min(c['batch'], len(must_rows))
+        if len(must_rows) - len(missed) < quota:
+            i, hbv, nstate, nacc = missed[0]
+            self.fail('expiry:missed', 'action %d (sync, RUNNING, last heartbeat/deadline %d) not failed by the pass at %d '
+                      '(threshold %d): state %s accepted %s; %d of %d due actions handled, batch_size %d' % (
+                          i, hbv, d.clock, d.clock - w, nstate, nacc, len(must_rows) - len(missed), len(must_rows), c['batch']))
 
     def _deliver_checked(self, i, label, fn, consumed=None):
         """Run one result delivery; if the action was already finished nothing at all may change
@@ -751,7 +764,7 @@ class OpsRun:
         orig_sched = m.th.schedule_on_action_complete
 
         def sched_wrapper(action_ex, *a, **kw):
-            self.notified[action_ex.id] = self.notified.get(action_ex.id, 0) + 1
+            self.notified.setdefault(action_ex.id, []).append(self.epoch)
             return orig_sched(action_ex, *a, **kw)
         with Patched() as p:
             p.set(m.th, 'schedule_on_action_complete', sched_wrapper)
@@ -778,10 +791,11 @@ class OpsRun:
                 self.snapshot(self.sync_rows())
             # drain: everything still running gets a plain result, the engine finishes its work
             outcomes = self.drain()
-        for aid, n in self.notified.items():
-            if n > 1:
-                self.fail('notified-twice', 'task handler was told %d times about the completion of action %s' % (
-                    n, self.idx.get(aid)))
+        for aid, eps in self.notified.items():
+            done = self.done_epoch.get(aid)
+            if done is not None and (any(e > done for e in eps) or len([e for e in eps if e == done]) > 1):
+                self.fail('notified-twice', 'task handler was told again about the completion of the already finished '
+                          'action %s (operation epochs %r, finished in %d)' % (self.idx.get(aid), eps, done))
                 break
         return outcomes
 
@@ -1224,7 +1238,8 @@ class IntegrityRun:
             dl = max(self.delay, 0)
             cands = []
             for name in cmax:
-                cands += [cmax[name] + dl + x for x in (0, 1, 2)] + [last[name] + dl + x for x in (-1, 0, 1)]
+                first = max(cmax[name] + dl + 1, last[name] + dl)       # first instant at which recovery is due
+                cands += [first, first, first - 1, first + 1, cmax[name] + dl, cmax[name] + dl + 1, last[name] + dl - 1, last[name] + dl]
             cands = [x for x in cands if x >= d.clock] or [d.clock + rng.choice([0, 1, 30, 200])]
             now = rng.choice(cands) if rng.random() < 0.85 else d.clock + rng.choice([0, 5, 50, 500])
             self.one_check(now, cmax, last)
@@ -1291,14 +1306,15 @@ class IntegrityRun:
                               '(state now %s)' % (name, after[name]['state']))
             elif name in cmax:
                 rank = running_order.index(tid) if tid in running_order else None
-                in_window = STRICT_WINDOW or (rank is not None and rank < self.batch)
+                inside = rank is not None and rank < self.batch
+                in_window = STRICT_WINDOW or inside
                 if now - cmax[name] <= self.delay and tid in called:
                     self.fail('integrity:premature', 'task %s: children finished at %d, check at %d with delay %d re-triggered '
                               'completion too early' % (name, cmax[name], now, self.delay))
                 if now - cmax[name] > self.delay and now - last[name] >= self.delay and in_window:
                     self.stats['must_recover'] = self.stats.get('must_recover', 0) + 1
                     if after[name]['state'] == 'RUNNING':
-                        self.fail('integrity:not-recovered', 'task %s stuck RUNNING (children finished at %d, last written %d) '
+                        self.fail('integrity:not-recovered' if inside else 'integrity:starved-beyond-batch', 'task %s stuck RUNNING (children finished at %d, last written %d) '
                                   'not completed by the check at %d (delay %d, rank %s, batch %d)' % (
                                       name, cmax[name], last[name], now, self.delay, rank, self.batch))
 
@@ -1384,6 +1400,7 @@ def local_corpus(ctx):
         run.wf = {'yaml': CORPUS_WF, 'tasks': {}}
         run.idx, run.info, run.ops, run.trace, run.snaps, run.real_log = {}, {}, [], [], [], []
         run.notified, run.orphaned, run.failed, run.kinds = {}, False, False, {}
+        run.done_epoch, run.epoch = {}, 0
         d.create_workflows(CORPUS_WF)
         for step in script:
             if step[0] == 'start':
@@ -1447,7 +1464,8 @@ CORPUS = [
                                       ('expect', {'a0': 'ERROR', 'a2/1': 'ERROR'})]),
     ('expiry-after-result', _C, [('start',), ('tick', 3000), ('result', 'a0', 'ok'), ('tick', 2000), ('pass',),
                                  ('expect', {'a0': 'SUCCESS', 'a1': 'RUNNING', 'a2/0': 'ERROR'})]),
-    ('taskless-first-in-batch', dict(_C, batch=1), [('adhoc',), ('start',), ('tick', 3901), ('pass',),
+    ('taskless-first-in-batch', dict(_C, batch=1), [('adhoc',), ('start',), ('tick', 3901), ('pass',), ('tick', 20), ('pass',),
+                                                    ('tick', 20), ('pass',), ('tick', 20), ('pass',),
                                                     ('expect', {'adhoc': 'RUNNING', 'a0': 'ERROR', 'a2/0': 'ERROR', 'a2/1': 'ERROR'})]),
     ('beat-protects', _C, [('start',), ('tick', 3800), ('beat', ['a0']), ('tick', 300), ('pass',),
                            ('expect', {'a0': 'RUNNING', 'a2/0': 'ERROR'}), ('tick', 1), ('pass',), ('expect', {'a0': 'ERROR'})]),
